@@ -376,9 +376,9 @@ func childC20(args []string) int {
 					em.fds, em.active = nil, false
 				}
 			case "query":
-				// queries during a shortage: only "no panic, no hang"
-				cache.ListDevices()
-				cache.GetErrors()
+				// queries during a shortage: no panic, no hang - and whatever is answered
+				// comes from the directories configured now (see the parent)
+				state(cache, &obs)
 			case "observe":
 				state(cache, &obs)
 				obs.Fds, obs.InotifyFds, obs.WatchedIno, obs.Goroutines = c20Resources()
@@ -397,7 +397,7 @@ func childC20(args []string) int {
 		if pv != nil {
 			obs.Panic = fmt.Sprintf("%v\n%s", pv, stack)
 		}
-		if st.Op == "observe" || st.Op == "baseline" || st.Op == "fresh" || obs.Err != "" || obs.Panic != "" || obs.EnvSuspect {
+		if st.Op == "observe" || st.Op == "query" || st.Op == "baseline" || st.Op == "fresh" || obs.Err != "" || obs.Panic != "" || obs.EnvSuspect {
 			out.Encode(obs)
 		}
 	}
@@ -414,7 +414,7 @@ func c20SpecContent(tag string) string {
 func checkC20(c *Ctx) {
 	c.Level = "fault_enumeration"
 	c.Rule = "seeded histories of 1-40 Configure calls (directory lists: permutations, subsets, supersets, missing, repeated; auto-refresh on/off/only one option) with directory changes before, between and after, on a private cache and on the package-level default cache (Configure first or GetDefaultCache first, DefaultSpecDirs redirected), the watcher goroutine sometimes held across a Configure; descriptor exhaustion (table full with reusable slots / strict) during step k only or from step k to the end, for every k <= 8; each history in its own child process; oracles: (i) final queries, error keys and directories equal those of a fresh cache with the final options, (ii) auto final mode: inotify watches exactly on the existing final directories and a later change converges; manual: no inotify descriptor and a later change is not reflected until Refresh(), (iii) descriptors, inotify instances and watcher goroutines at the end <= baseline + one watcher regardless of history length, (iv) after a shortage ends the next queries reflect the current contents; distinct_nontrivial = distinct (cache kind, option-change sequence, exhaustion placement)"
-	c.Assume("during descriptor exhaustion only 'no panic, no hang' is required", "resource counts are sampled after the goroutines of stopped watchers had a bounded time to exit", "one watcher = 4 descriptors (inotify, epoll, pipe pair) and 2 goroutines (fsnotify reader, cdi watch loop)")
+	c.Assume("during descriptor exhaustion: no panic, no hang, and nothing answered from a directory that is not configured (what can be read at all is unspecified)", "resource counts are sampled after the goroutines of stopped watchers had a bounded time to exit", "one watcher = 4 descriptors (inotify, epoll, pipe pair) and 2 goroutines (fsnotify reader, cdi watch loop)")
 	exe, _ := os.Executable()
 	nh := c.pick(90, 3000)
 	ne := c.pick(36, 600)
@@ -716,6 +716,31 @@ func checkC20(c *Ctx) {
 		}
 		if envConfirmed {
 			return 1
+		}
+		// whatever a cache answers during a shortage, it answers from the directories
+		// it is configured with at that moment: never from a list it was told to drop
+		for i, st := range steps {
+			o, ok := obs[i]
+			if !ok || st.Op != "query" {
+				continue
+			}
+			c.Count("queries_during_a_shortage", 1)
+			for q, desc := range o.Devices {
+				path := desc
+				if k := strings.Index(desc, "@"); k >= 0 {
+					path = desc[:k]
+				}
+				inside := false
+				for _, d := range o.Dirs {
+					if filepath.Dir(path) == filepath.Clean(d) {
+						inside = true
+					}
+				}
+				if !inside {
+					cs.Violation("stale-during-shortage", map[string]string{"default": fmt.Sprint(useDefault), "exhaust": exhaustMode}, fmt.Sprintf("during the descriptor shortage (step %d) the cache, configured with %v, answers %s from %s: a directory that is not configured", i, o.Dirs, q, path), map[string]any{"script": steps, "observation": o})
+					return
+				}
+			}
 		}
 		if envSuspect && !evaluateAnyway {
 			// identical repetitions that keep lacking a watcher while the machine has
